@@ -373,7 +373,7 @@ pub fn check(c: &Case) -> CheckResult {
             Path::Proxy => {
                 // upstream: a real Server with the sized handler; the proxy sits on a duplex
                 let server = Server::new(server_router(false));
-                let l = server.listen("127.0.0.1:0").map_err(|e| Fail::new("harness-listen", e.to_string()))?;
+                let l = server.listen(crate::util::lo0().as_str()).map_err(|e| Fail::new("harness-listen", e.to_string()))?;
                 let addr = l.local_addr().unwrap();
                 std::thread::spawn(move || {
                     let _ = server.serve(l);
